@@ -1,10 +1,11 @@
 use crate::Headers;
 use std::cmp::min;
 use std::io::{self, BufRead, BufReader, ErrorKind, Read};
+use std::sync::atomic::{AtomicBool, Ordering};
 
 const BUF_SIZE: usize = 4096;
 
-pub struct BodyReader<'a, R: Read>(BodyEncoding<'a, R>);
+pub struct BodyReader<'a, R: Read>(BodyEncoding<'a, R>, Option<&'a AtomicBool>);
 
 enum BodyEncoding<'a, R> {
     Fixed(FixedReader<'a, R>),
@@ -46,29 +47,51 @@ impl<'a, R: Read> BodyReader<'a, R> {
 
     #[inline]
     pub fn new_fixed(leftover: &'a [u8], stream: R, content_length: usize) -> Self {
-        Self(BodyEncoding::Fixed(FixedReader::new(
-            leftover,
-            stream,
-            content_length,
-        )))
+        Self(
+            BodyEncoding::Fixed(FixedReader::new(leftover, stream, content_length)),
+            None,
+        )
     }
 
     #[inline]
     pub fn new_chunked(leftover: &'a [u8], stream: R) -> Self {
-        Self(BodyEncoding::Chunked(ChunkedReader::new(leftover, stream)))
+        Self(
+            BodyEncoding::Chunked(ChunkedReader::new(leftover, stream)),
+            None,
+        )
     }
 
     #[inline]
     pub fn new_eof(leftover: &'a [u8], stream: R) -> Self {
-        Self(BodyEncoding::Eof(BufReader::with_capacity(
-            BUF_SIZE,
-            StreamWithLeftover::new(leftover, stream),
-        )))
+        Self(
+            BodyEncoding::Eof(BufReader::with_capacity(
+                BUF_SIZE,
+                StreamWithLeftover::new(leftover, stream),
+            )),
+            None,
+        )
     }
 
     #[inline]
     pub fn new_empty(stream: R) -> Self {
-        Self(BodyEncoding::Empty(stream))
+        Self(BodyEncoding::Empty(stream), None)
+    }
+
+    /// `flag` is set when reading or discarding the body fails (truncated or malformed body):
+    /// the position of the next message on the stream is then unknown.
+    pub(crate) fn on_failure(mut self, flag: &'a AtomicBool) -> Self {
+        self.1 = Some(flag);
+        self
+    }
+
+    #[inline]
+    fn note<T>(&self, res: io::Result<T>) -> io::Result<T> {
+        if res.is_err() {
+            if let Some(flag) = self.1 {
+                flag.store(true, Ordering::Relaxed);
+            }
+        }
+        res
     }
 
     pub fn string(&mut self) -> io::Result<String> {
@@ -91,23 +114,16 @@ impl<'a, R: Read> BodyReader<'a, R> {
     }
 
     fn drain(&mut self) {
+        if matches!(self.0, BodyEncoding::Eof(_) | BodyEncoding::Empty(_)) {
+            return;
+        }
         let mut buf = [0u8; 1024];
         loop {
-            match &mut self.0 {
-                BodyEncoding::Fixed(reader) => {
-                    match reader.read(&mut buf) {
-                        Ok(0) => break,
-                        Ok(_) => continue,
-                        Err(_) => break, // silently stop draining
-                    }
-                }
-                BodyEncoding::Chunked(reader) => match reader.read(&mut buf) {
-                    Ok(0) => break,
-                    Ok(_) => continue,
-                    Err(_) => break,
-                },
-                BodyEncoding::Eof(_) => return,
-                BodyEncoding::Empty(_) => return,
+            // through `Read for BodyReader`, so that a failure is noted in the flag
+            match self.read(&mut buf) {
+                Ok(0) => break,
+                Ok(_) => continue,
+                Err(_) => break, // stop draining; the connection cannot be re-used
             }
         }
     }
@@ -115,23 +131,31 @@ impl<'a, R: Read> BodyReader<'a, R> {
 
 impl<R: Read> Read for BodyReader<'_, R> {
     fn read(&mut self, buf: &mut [u8]) -> io::Result<usize> {
-        match &mut self.0 {
+        let res = match &mut self.0 {
             BodyEncoding::Fixed(r) => r.read(buf),
             BodyEncoding::Chunked(c) => c.read(buf),
             BodyEncoding::Eof(r) => r.read(buf),
             BodyEncoding::Empty(_) => Ok(0),
-        }
+        };
+        self.note(res)
     }
 }
 
 impl<R: Read> BufRead for BodyReader<'_, R> {
     fn fill_buf(&mut self) -> io::Result<&[u8]> {
-        match &mut self.0 {
+        let flag = self.1;
+        let res = match &mut self.0 {
             BodyEncoding::Fixed(r) => r.fill_buf(),
             BodyEncoding::Chunked(c) => c.fill_buf(),
             BodyEncoding::Eof(r) => r.fill_buf(),
-            BodyEncoding::Empty(_) => Ok(&[]),
+            BodyEncoding::Empty(_) => Ok(&[][..]),
+        };
+        if res.is_err() {
+            if let Some(flag) = flag {
+                flag.store(true, Ordering::Relaxed);
+            }
         }
+        res
     }
     fn consume(&mut self, amt: usize) {
         match &mut self.0 {
